@@ -309,6 +309,54 @@ def bic_shard(args):
 
 INTERPRETERS = {"python -O": ["-O"], "python -W error": ["-W", "error"]}
 
+EXTREME = ["", " ", "\n", "A", "0", "DE", "DE8", "-", "٣", "9" * 4300, "9" * 4301, "9" * 5000, "Z" * 2151,
+           "DE89" + "3" * 5000, "DE" + "Z" * 3000, "IBAN", "None", "{}", "%s", "\x00", "0" * 40]
+
+
+def extremes_shard(args):
+    """Empty, one-character and very long texts (beyond the interpreter's limit for int <-> str
+    conversion, 4300 digits) through EVERY public way of handing a text to the library: nothing but
+    library exceptions, is_valid never raises, and the numeric / formatted views of unvalidated
+    objects stay total."""
+    part = par.Part()
+    ways = {
+        "IBAN(t)": lambda t: lib.IBAN(t),
+        "IBAN(t,validate_bban=True)": lambda t: lib.IBAN(t, validate_bban=True),
+        "IBAN(t,allow_invalid).is_valid": lambda t: lib.IBAN(t, allow_invalid=True).is_valid,
+        "IBAN(t,allow_invalid).validate(True)": lambda t: lib.IBAN(t, allow_invalid=True).validate(True),
+        "IBAN(t,allow_invalid).numeric": lambda t: lib.IBAN(t, allow_invalid=True).numeric,
+        "IBAN(t,allow_invalid).formatted": lambda t: lib.IBAN(t, allow_invalid=True).formatted,
+        "IBAN(t,allow_invalid).bic": lambda t: lib.IBAN(t, allow_invalid=True).bic,
+        "IBAN.from_bban('DE',t)": lambda t: lib.IBAN.from_bban("DE", t),
+        "IBAN.from_bban('DE',t,allow_invalid)": lambda t: lib.IBAN.from_bban("DE", t, allow_invalid=True),
+        "IBAN.from_bban(t,t)": lambda t: lib.IBAN.from_bban(t, t),
+        "IBAN.from_bban('',t,allow_invalid)": lambda t: lib.IBAN.from_bban("", t, allow_invalid=True),
+        "BBAN('DE',t).validate_national_checksum()": lambda t: lib.BBAN("DE", t).validate_national_checksum(),
+        "BBAN('',t).bank_code": lambda t: lib.BBAN("", t).bank_code,
+        "IBAN.generate('DE',t,t)": lambda t: lib.IBAN.generate("DE", t, t),
+        "IBAN.generate(t,'1','1')": lambda t: lib.IBAN.generate(t, "1", "1"),
+        "BIC(t)": lambda t: lib.BIC(t),
+        "BIC(t,allow_invalid).is_valid": lambda t: lib.BIC(t, allow_invalid=True).is_valid,
+        "BIC(t,allow_invalid).formatted": lambda t: lib.BIC(t, allow_invalid=True).formatted,
+        "BIC.from_bank_code('DE',t)": lambda t: lib.BIC.from_bank_code("DE", t),
+        "BIC.from_bank_code(t,'43060967')": lambda t: lib.BIC.from_bank_code(t, "43060967"),
+    }
+    for t in EXTREME:
+        for name, f in ways.items():
+            part.count(("extreme", name, len(t), t[:6]))
+            k, v = lib.outcome(f, t)
+            if k == "foreign":
+                part.violation(f"foreign-exception-escapes:{name}:{v} [extreme text]",
+                               {"kind": "c05extreme", "way": name, "text_head": t[:12], "text_length": len(t)},
+                               "library exception or result", (k, v))
+            elif name.endswith(".is_valid") and (k != "ok" or not isinstance(v, bool)):
+                part.violation(f"is_valid-raised:{name} [extreme text]",
+                               {"kind": "c05extreme", "way": name, "text_head": t[:12], "text_length": len(t)},
+                               "bool", (k, v))
+    part.stat("extreme_texts", len(EXTREME))
+    part.sample({"extreme_text_lengths": sorted({len(t) for t in EXTREME}), "ways": list(ways)})
+    return part.done()
+
 
 def optimised_child(arg):
     """Runs inside a brand-new interpreter started with other options (``python -O``, ``python -W
@@ -345,12 +393,18 @@ def optimised_child(arg):
 
 
 def shard(args):
+    if args[0] == "extremes":
+        return extremes_shard(args)
     if args[0] in INTERPRETERS:
         return par.in_interpreter(INTERPRETERS[args[0]], "mc.props.c05", "optimised_child", (args[1], args[0]))
     return bic_shard(args[1:]) if args[0] == "bic" else iban_shard(args[1:])
 
 
 def replay(case: dict) -> dict:
+    if case.get("kind") == "c05extreme":
+        part = extremes_shard(("extremes", "quick"))
+        hit = [v for v in part["violations"] if v["case"] == case]
+        return {"ok": not hit, "observed": [h["observed"] for h in hit[:3]]}
     if case.get("interpreter"):
         label = "python -O" if case["interpreter"] == "-O" else case["interpreter"]
         part = par.in_interpreter(INTERPRETERS[label], "mc.props.c05", "optimised_child", ("quick", label))
@@ -364,7 +418,7 @@ def replay(case: dict) -> dict:
 def main(tier: str) -> int:
     run = report.Run(PID, tier, "exploration", RULE)
     countries = sorted(reg.countries())
-    shards = [(lb, tier) for lb in INTERPRETERS] + [("iban", c, tier) for c in countries] + [("bic", b, tier) for b in c04.bases()]
+    shards = [("extremes", tier)] + [(lb, tier) for lb in INTERPRETERS] + [("iban", c, tier) for c in countries] + [("bic", b, tier) for b in c04.bases()]
     par.run_shards(run, shard, shards)
     run.extra.update({"countries": len(countries), "bic_bases": len(c04.bases()),
                       "entry_points": {"iban": 7, "bic": 5},
